@@ -345,10 +345,12 @@ def indexedAccess (obj idx : SemType) : SM SemType := fun c => do
       | .all => bddMappingMember c 200 b .all unknown
       | .some ⟨a, vs⟩ => bddMappingMember c 200 b (.lits a vs) unknown
   let acc ← union listRes mapRes
-  let numIdx := idx.num != .none && idx == { never with num := idx.num }
-  let strObj := obj.str != .none && obj == { never with str := obj.str }
-  let isNumSub := idx.num == .all || numIdx
-  let isStrSub := obj.str == .all || strObj
+  -- `is_subtype_of_number` / `is_subtype_of_string` (semtype.rs:269-289; misnomers): the tag is there as a whole, or no
+  -- tag is there as a whole (`all == 0`) and the tag has a proper part
+  let noWhole (t : SemType) : Bool :=
+    t.bool != .all && t.num != .all && t.str != .all && !t.null && !t.opt && t.mapping != .all && t.list != .all && t.vu != .all && !t.other
+  let isNumSub := idx.num == .all || (noWhole idx && idx.num != .none)
+  let isStrSub := obj.str == .all || (noWhole obj && obj.str != .none)
   let acc ← if isNumSub && isStrSub then union acc { never with str := .all } else some acc
   some (acc, c)
 
